@@ -5,7 +5,7 @@
 (* the outcome and the logged observations.  Every applicable property     *)
 (* gets one verdict per record; nothing stops at the first failure.        *)
 (***************************************************************************)
-EXTENDS FlattenProps, Json
+EXTENDS Flatten, Json
 
 CONSTANT K
 Trace == ndJsonDeserialize("trace.ndjson")
@@ -70,7 +70,51 @@ Verdict(rec) ==
   /\ Out(<<"STAT", tid, Cardinality(DOMAIN b0), Cardinality(Defs(RootOf(b0))), Cardinality(Defs(doc)),
            Cardinality(RefsIn(RootOf(b0))), Cardinality(RefsIn(doc))>>)
 
-Init == l \in 1..K /\ l <= N /\ Verdict(Trace[l])
-Next == l + K <= N /\ l' = l + K /\ Verdict(Trace[l'])
+\* ---- step-level conformance (L2): each phase transition is explained by the operators of Flatten.tla with the
+\* arguments the code logged.  A mismatch is MODEL DRIFT (reported, never a violation: the properties are judged above).
+EventsAt(rec, i) == SelectSeq(rec.events, LAMBDA e : e.at = i - 1)
+RECURSIVE ApplyEventsO(_, _, _, _)
+ApplyEventsO(b0, doc, evs, orig) ==      \* orig: key -> schema first found there (see NameSchema)
+  IF evs = <<>> THEN doc
+  ELSE LET e == Head(evs) IN
+       IF e.ev = "name"
+       THEN LET k   == e.keys[1]
+                \* aliasing in the code: a schema held in a slice (allOf/anyOf/oneOf member, tuple element) is addressed in place,
+                \* so a second name for the same key clones what the first rewrite left there (a $ref); elsewhere the original
+                slice == Len(k) >= 2 /\ Has(doc, Front(k)) /\ IsList(At(doc, Front(k)))
+                sch == IF k \in DOMAIN orig /\ ~slice THEN orig[k] ELSE IF Has(doc, k) THEN At(doc, k) ELSE Empty
+            IN ApplyEventsO(b0, NameSchema(doc, k, e.name, MarkerFor(k), sch), Tail(evs), (k :> sch) @@ orig)
+       ELSE ApplyEventsO(b0,
+              CASE e.ev = "import.new"   -> ImportNew(b0, doc, e.target, e.name, Range(e.keys))
+                [] e.ev = "import.known" -> ImportKnown(doc, e.name, Range(e.keys))
+                [] OTHER                 -> doc,
+              Tail(evs), orig)
+ApplyEvents(b0, doc, evs) == ApplyEventsO(b0, doc, evs, <<>>)
+HasPointerEvents(rec) == \E i \in DOMAIN rec.events : rec.events[i].ev \in {"pointer.top", "pointer.named", "pointer.expanded", "strip.one"}
+\* which transitions the constructive model speaks for
+StepExpected(rec, b0, i) ==      \* the document the constructive model predicts after phase i ("skip" = not modelled)
+  LET prev == IF i = 1 THEN RootOf(b0) ELSE rec.phases[i - 1].doc
+      cur  == rec.phases[i]
+      skip == cur.doc
+  IN CASE cur.ev = "phase.expand"     -> IF rec.mode = "expand" THEN skip ELSE ExpandShared(b0)
+       [] cur.ev = "phase.normalize"  -> prev
+       [] cur.ev = "phase.dropShared" -> IF rec.ru THEN DropShared(prev) ELSE prev
+       [] cur.ev = "round.import"     -> ApplyEvents(b0, prev, EventsAt(rec, i))
+       [] cur.ev = "phase.import"     -> prev
+       [] cur.ev = "phase.nameInline" -> IF HasPointerEvents(rec) \/ rec.anon THEN skip ELSE ApplyEvents(b0, prev, EventsAt(rec, i))
+       [] cur.ev = "round.removeUnused" -> RemovePass(prev)
+       [] cur.ev = "phase.removeUnused" -> prev
+       [] OTHER -> skip          \* pointer naming / OAIGen de-duplication: relational contracts only
+StepExplained(rec, b0, i) == rec.phases[i].doc = StepExpected(rec, b0, i)
+Drifting(rec, b0) == { i \in DOMAIN rec.phases : ~StepExplained(rec, b0, i) }
+Steps(rec) ==
+  (rec.ok /\ rec.crash = "none" /\ rec.inW /\ rec.phases # <<>>) =>
+     LET D == Drifting(rec, rec.bundle) IN
+     /\ Out(<<"VERDICT", rec.tid, "STEPS", D = {}>>)
+     /\ (D = {} \/ LET i == CHOOSE i \in D : \A j \in D : i <= j IN
+                      Out(<<"DIAG", rec.tid, "STEPS", rec.phases[i].ev \o "." \o rec.mode, TreeDiff(StepExpected(rec, rec.bundle, i), rec.phases[i].doc, <<>>)>>))
+
+Init == l \in 1..K /\ l <= N /\ Verdict(Trace[l]) /\ Steps(Trace[l])
+Next == l + K <= N /\ l' = l + K /\ Verdict(Trace[l']) /\ Steps(Trace[l'])
 Spec == Init /\ [][Next]_l
 =============================================================================
